@@ -286,12 +286,19 @@ theorem Region.getSlice_eq (r : Region) (hl : r.len < U) (off cnt : Nat) :
 def trivCb : GMem → Unit → Nat → Nat → Nat → Nat → GMem × Unit × Res Nat :=
   fun m _ _ len _ _ => (m, (), .ok len)
 
-theorem checkRange_eq (m : GMem) (base len : Nat) :
+theorem checkRange_eq (m : GMem) (base len : Nat) (hpos : 0 < len) :
     m.checkRange base len =
       match GMem.tryAccessLoop trivCb len base m () base 0 with
       | (_, _, .ok n) => .ok (n == len)
       | (_, _, .err _) => .ok false
-      | (_, _, .panic) => .panic := rfl
+      | (_, _, .panic) => .panic := by
+  have hne : ¬ len = 0 := by omega
+  simp only [GMem.checkRange, GMem.tryAccess, hne, if_false]
+  rfl
+
+/-- `try_access` returns `Ok(0)` for `count == 0` before looking at any region -/
+theorem checkRange_zero_eq (m : GMem) (base : Nat) : m.checkRange base 0 = .ok true := by
+  simp [GMem.checkRange, GMem.tryAccess]
 
 /-- The loop started at `cur` with `total < count` bytes done never panics, leaves the map
     alone, and returns `Ok(count)` exactly when the remaining `count - total` addresses from
